@@ -18,11 +18,16 @@ type world struct {
 	// roots the harness itself built by hashing a node preimage that is not 0x01 || 32 bytes || 32 bytes
 	// (directly or further down the chain): not the root of any RFC 6962 tree.  root -> how it was built
 	nonTree map[string]string
+	// unconfigured id strings that are alternative spellings of a configured id (spelling.go)
+	aliases map[*logT][]*logT
 }
 
 func (h *harness) newWorld() *world {
 	w := &world{}
-	w.logs = []*logT{newLog("A", true, false), newLog("B", true, false), newLog("K", true, true), newLog("U", false, false)}
+	// log ids are base64 text; A's id is drawn until it contains both characters that the URL-safe
+	// alphabet spells differently (about one key in four), B's is whatever comes
+	both := func(id string) bool { return strings.Contains(id, "/") && strings.Contains(id, "+") }
+	w.logs = []*logT{newLogWith("A", true, false, both), newLog("B", true, false), newLog("K", true, true), newLog("U", false, false)}
 	n := 6 + h.r.Intn(30)
 	base := h.randLeaves(n)
 	fork := func(at int) [][]byte {
@@ -122,6 +127,47 @@ func (o *oracle) afterUpdate(u, g step, ri *rawInfo) {
 		}
 	}
 	changed := (before == nil) != (after == nil) || (before != nil && !before.p.sameSigned(*after))
+	// an id string that is not byte-identical to a configured one names an unknown log, however
+	// close it comes (another spelling of a configured id included): refused, nothing held under it
+	if !l.configured {
+		what := "not a configured log id"
+		if l.aliasOf != nil {
+			what = fmt.Sprintf("not a configured log id, only another spelling (%s) of log %s's id %q", l.spelling, l.aliasOf.name, l.aliasOf.id)
+		}
+		if u.obs.class == "EOk" || u.obs.body != nil {
+			o.fail("update addressed to log id %q (%s) was not refused as an unknown log (answer %s): %s", l.id, what, u.obs.class, u.op.desc)
+		}
+		if after != nil {
+			o.fail("an STH (%s) is held under log id %q (%s): %s", sthKey(*after), l.id, what, u.op.desc)
+		}
+	}
+	// a candidate that carries the configured log's signature and is stale or inconsistent with the held
+	// STH is refused AND answered with the held one - whatever is wrong with it (smaller, same size with
+	// another root, or larger with a proof that does not prove it: wrong hashes, wrong NUMBER of nodes,
+	// no proof at all).  "Does not prove it" is decided here by the RFC 9162 2.1.4.2 algorithm written
+	// out by hand (rfcRoots), not by the library the witness calls.  No excuse unless a database
+	// refusal was possible (fault is set by the concurrent stream only, see dbFaultPossible).
+	if l.configured && l.idHash != nil && ri.ok && ri.verdict[l.id] && before != nil && u.op.fault == "NoFault" &&
+		(bytes.Equal(ri.p.LogID, make([]byte, 32)) || bytes.Equal(ri.p.LogID, l.idHash)) {
+		why := ""
+		switch {
+		case ri.p.Size < before.p.Size:
+			why = "stale"
+		case ri.p.Size == before.p.Size && !bytes.Equal(ri.p.Root, before.p.Root):
+			why = "same size, other root"
+		case ri.p.Size > before.p.Size && before.p.Size > 0 && !proofProves(before.p.Size, ri.p.Size, u.op.proof, before.p.Root, ri.p.Root):
+			why = fmt.Sprintf("inconsistent: %s", proofShape(o.w, before.p.Size, ri.p.Size, u.op.proof))
+			o.tags["refusal-proof-shape:"+proofShapeTag(o.w, before.p.Size, ri.p.Size, u.op.proof)] = true
+			// (with VERIF_C19_STRICT=0, odd-sized nodes are finding C19-1 and only tagged, further down)
+			if u.obs.class == "EOk" && changed && (o.strict || proofShapeTag(o.w, before.p.Size, ri.p.Size, u.op.proof) != "odd-sized-node") {
+				o.fail("held (%d,%x) replaced by (%d,%x) on a proof that does not prove consistency (%s): %s", before.p.Size, before.p.Root[:4], ri.p.Size, ri.p.Root[:4], why, u.op.desc)
+			}
+		}
+		if why != "" && u.obs.class != "EFailedPre" && u.obs.class != "EOk" {
+			o.fail("candidate refused as %s was answered %s%s instead of FailedPrecondition / 409 with the held STH (%s) cosigned: %s",
+				why, u.obs.class, httpNote(u.obs), sthKey(before.p), u.op.desc)
+		}
+	}
 	switch {
 	case changed && before == nil:
 		o.tags["outcome:first-use-stored"] = true
@@ -268,6 +314,7 @@ var scenarios = []scenario{
 	{"advance", 30}, {"advance-badproof", 26}, {"fork", 10}, {"stale", 7}, {"replay", 5}, {"resigned-same", 3},
 	{"same-size-other-root", 5}, {"bad-sig", 6}, {"wrong-id", 4}, {"unknown-log", 3}, {"badkey-log", 2},
 	{"malformed", 4}, {"zero-size", 2}, {"garbage-root", 3}, {"huge-size", 2}, {"junk-cosig", 3}, {"version", 1},
+	{"alt-spelling", 6},
 }
 
 func (h *harness) pickScenario() string {
@@ -490,6 +537,43 @@ func (h *harness) nextUpdate(w *world, l *logT, hd *heldT, ts *uint64) *opT {
 		op.log = w.logs[3]
 		spec.signer, spec.idOwner = op.log, op.log
 		setTree(cur, pickLarger(cur))
+	case "alt-spelling":
+		// a genuinely signed STH of this log (successor with its proof, stale, forked, or the held bytes
+		// again) addressed to a string that is not the configured id but another spelling of it
+		as := w.aliasesOf(l)
+		al := as[h.r.Intn(len(as))]
+		if h.r.Intn(2) == 0 { // half of the draws: the spellings other software produces routinely
+			var common []*logT
+			for _, a := range as {
+				switch a.spelling {
+				case "urlsafe", "urlsafe-nopad", "nopad", "percent-query", "percent-path", "hex", "lower-case", "trailing-newline":
+					common = append(common, a)
+				}
+			}
+			al = common[h.r.Intn(len(common))]
+		}
+		op.log = al
+		sc += ":" + al.spelling
+		switch x := h.r.Intn(4); {
+		case x == 0 && m > 0:
+			mm := m
+			if mm > cur.size() {
+				mm = cur.size()
+			}
+			setTree(cur, uint64(h.r.Intn(int(mm))))
+			op.proof = nil
+			sc += ":stale"
+		case x == 1:
+			t := w.trees[1+h.r.Intn(3)]
+			setTree(t, pickLarger(t))
+			sc += ":fork"
+		case x == 2 && hd != nil:
+			op.raw = hd.raw
+			sc += ":replay"
+		default:
+			setTree(cur, pickLarger(cur))
+			sc += ":successor"
+		}
 	case "badkey-log":
 		op.log = w.logs[2]
 		spec.signer, spec.idOwner, spec.idMode = op.log, op.log, "absent"
@@ -643,6 +727,18 @@ func tagsOfStep(tags map[string]bool, s step) {
 		if i := strings.Index(sc, "@"); i >= 0 {
 			sc = sc[:i]
 		}
+		if strings.HasPrefix(sc, "alt-spelling:") {
+			if parts := strings.Split(sc, ":"); len(parts) > 1 {
+				tags["id-spelling:"+parts[1]] = true
+			}
+			sc = "alt-spelling"
+		}
+		if strings.HasPrefix(sc, "wrong-count:") {
+			if parts := strings.Split(sc, ":"); len(parts) > 1 {
+				tags["wrong-count-proof:"+parts[1]] = true
+			}
+			sc = "wrong-count"
+		}
 		tags["update:"+sc] = true
 		tags["update-class:"+s.obs.class] = true
 		switch {
@@ -693,6 +789,10 @@ func (h *harness) sequentialCase(i int) {
 			hc.steps = append(hc.steps, s)
 		case x == 1:
 			l := w.logs[h.r.Intn(len(w.logs))]
+			if h.r.Intn(4) == 0 { // under another spelling of a configured id: holds nothing
+				as := w.aliasesOf(w.logs[h.r.Intn(2)])
+				l = as[h.r.Intn(len(as))]
+			}
 			op := &opT{kind: "getsth", log: l, fault: "NoFault", desc: "getsth " + l.name}
 			s := step{op, in.exec(op, orc.submitted)}
 			orc.onGetSTH(s)
@@ -702,7 +802,18 @@ func (h *harness) sequentialCase(i int) {
 			if h.r.Intn(4) == 0 {
 				l = w.logs[1]
 			}
-			h.doUpdate(hc, orc, in, h.nextUpdate(w, l, orc.held[l.id], &ts))
+			up := h.nextUpdate(w, l, orc.held[l.id], &ts)
+			h.doUpdate(hc, orc, in, up)
+			if up.log.aliasOf != nil { // the configured log's own row is left alone, nothing new is listed
+				gop := &opT{kind: "getsth", log: l, fault: "NoFault", desc: "getsth " + l.name}
+				s := step{gop, in.exec(gop, orc.submitted)}
+				orc.onGetSTH(s)
+				hc.steps = append(hc.steps, s)
+				lop := &opT{kind: "getlogs", fault: "NoFault", desc: "getlogs"}
+				s = step{lop, in.exec(lop, orc.submitted)}
+				orc.onGetLogs(s)
+				hc.steps = append(hc.steps, s)
+			}
 		}
 	}
 	// always end with GetLogs
@@ -729,12 +840,13 @@ func (h *harness) doUpdate(hc *histCase, orc *oracle, in *instance, op *opT) {
 	u := step{op, in.exec(op, orc.submitted)}
 	gop := &opT{kind: "getsth", log: op.log, fault: "NoFault", desc: "getsth after update"}
 	g := step{gop, in.exec(gop, orc.submitted)}
-	// a database refusal is an environment event: visible as class Other on an input that
-	// parses, names a configured log and carries its signature
+	// No database refusal is possible here: one client, one operation at a time, nobody else holds a
+	// lock.  An answer of class Other to an input that parses, names a configured log and carries its
+	// signature is therefore NOT explained away as an environment event (only the concurrent stream
+	// may do that, for overlapping transactions on a connection pool): the model and the oracle see it.
 	if u.obs.kind != "panic" && u.obs.class == "EOther" && op.log.configured && op.log.idHash != nil && ri.ok && ri.verdict[op.log.id] &&
 		(bytes.Equal(ri.p.LogID, make([]byte, 32)) || bytes.Equal(ri.p.LogID, op.log.idHash)) {
-		op.fault = "FBegin"
-		hc.tags["db-fault:update"] = true
+		hc.tags["unexplained-class-other:update"] = true
 	}
 	orc.afterUpdate(u, g, ri)
 	hc.steps = append(hc.steps, u, g)
